@@ -91,6 +91,7 @@ void close_socket(NativeSocket socket) {
 #endif
 
 constexpr std::size_t kMaxLineLength = 16 * 1024;
+constexpr std::chrono::milliseconds kClientIoTimeout{15000};
 constexpr std::chrono::seconds kStoreRateWindow{std::chrono::seconds(30)};
 constexpr std::size_t kStoreRateBurstLimit = 6;
 constexpr std::chrono::seconds kStorePowFailureWindow{std::chrono::seconds(120)};
@@ -626,6 +627,21 @@ private:
                     std::this_thread::sleep_for(std::chrono::milliseconds(50));
                 }
                 continue;
+            }
+            // Requests are served one at a time: a client that stops sending (or reading) must
+            // not hold the control plane forever.
+            {
+#ifdef _WIN32
+                const DWORD io_timeout = static_cast<DWORD>(kClientIoTimeout.count());
+                setsockopt(client, SOL_SOCKET, SO_RCVTIMEO, reinterpret_cast<const char*>(&io_timeout), sizeof(io_timeout));
+                setsockopt(client, SOL_SOCKET, SO_SNDTIMEO, reinterpret_cast<const char*>(&io_timeout), sizeof(io_timeout));
+#else
+                timeval io_timeout{};
+                io_timeout.tv_sec = static_cast<time_t>(kClientIoTimeout.count() / 1000);
+                io_timeout.tv_usec = static_cast<suseconds_t>((kClientIoTimeout.count() % 1000) * 1000);
+                setsockopt(client, SOL_SOCKET, SO_RCVTIMEO, &io_timeout, sizeof(io_timeout));
+                setsockopt(client, SOL_SOCKET, SO_SNDTIMEO, &io_timeout, sizeof(io_timeout));
+#endif
             }
             std::string remote_address{"unknown"};
             char buffer[INET_ADDRSTRLEN] = {0};
